@@ -681,8 +681,11 @@ class IRContext:
         if (
             not self.builder.enable_double_precision
             and np.issubdtype(aval_dtype, np.floating)
-            and aval_dtype != np.dtype(self._default_float_dtype)
+            and np.dtype(aval_dtype).itemsize
+            > np.dtype(self._default_float_dtype).itemsize
         ):
+            # Demote float64 placeholders when double precision is off; narrower
+            # floats (float16) keep their own dtype.
             aval_dtype = np.dtype(self._default_float_dtype)
         promote_flag = self.builder.enable_double_precision
         if (
